@@ -813,6 +813,26 @@ pub fn run_index(prop: &str, idx: u64, vseed: u64, tier: Tier) -> RunResult {
                 if !crate::dut::pairing_compiles(model, transport) || !crate::dut::supported_today(model, transport.kind()) {
                     return r;
                 }
+                if tsel == 0 && rng.chance(1, 12) {
+                    // a whole-screen solid fill through a full-frame staging buffer must encode
+                    // like the stream, too (tens of thousands of pixels per transfer)
+                    let (fw, fh) = model.fb();
+                    let bpp: u32 = if model.rgb666() { 3 } else { 2 };
+                    let buf = *rng.pick(&[fw as u32 * fh as u32 * bpp, 131_072, 196_608, 65_536, 65_535, 70_001]);
+                    let mut cfg = base_config(&mut rng, model, Transport::Spi { buf }, fw, fh);
+                    cfg.ox = 0;
+                    cfg.oy = 0;
+                    let c1 = gen_colour(&mut rng);
+                    let c2 = gen_colour(&mut rng);
+                    let (lw, lh) = cfg.logical_size();
+                    let program = vec![
+                        Op::Clear { c: c1 },
+                        Op::FillSolid { rect: Rect { x: 0, y: 0, w: lw, h: (lh / 2).max(1) }, c: c2 },
+                        Op::SetPixels { sx: 0, sy: 0, ex: (lw - 1) as u16, ey: 0, colors: Colors::List(vec![c1; lw as usize]) },
+                    ];
+                    one(&mut r, ReplayCase::Display(mk_case(prop, seed, cfg, program)));
+                    return r;
+                }
                 let cfg = base_config(&mut rng, model, transport, 24, 24);
                 let (lw, lh) = cfg.logical_size();
                 let space = model.colour_space();
@@ -950,6 +970,17 @@ pub fn run_index(prop: &str, idx: u64, vseed: u64, tier: Tier) -> RunResult {
                 }
                 if rng.chance(1, 3) {
                     c.oy = 0;
+                }
+                if rng.chance(1, 8) {
+                    // a square window at equal offsets: both axes get the same numbers but
+                    // must be judged against their own framebuffer extent
+                    if rng.coin() {
+                        c.h = c.w;
+                        c.oy = c.ox;
+                    } else {
+                        c.w = c.h;
+                        c.ox = c.oy;
+                    }
                 }
                 c
             };
